@@ -219,6 +219,9 @@ func (w *World) CheckLifecycle(out *Outcome, o *Obs) []Violation {
 					if r == nil || !pt.Single() || r.Exact == "" || r.DontCare || r.Tied {
 						continue
 					}
+					if ti := w.Insts[r.Exact]; ti != nil && ti.Contributed && ti.ContribBy != "" {
+						continue // registered programmatically later on: it may not have existed yet
+					}
 					got := snap[pt.Field]
 					if len(got) != 1 || w.componentOf(got[0]) != r.Exact {
 						vs = append(vs, v("C05", "initialised-before-populated", i.ID+"."+pt.Field, fmt.Sprintf("when the initialization of %s began its point %s held %v; the resolver model determines %s", i.ID, pt.Field, got, r.Exact)))
@@ -278,6 +281,9 @@ func (w *World) CheckLifecycle(out *Outcome, o *Obs) []Violation {
 		for _, pt := range w.Types[w.Insts[h].Type].Points {
 			if pt.Sel == sdl.SelName {
 				for _, id := range w.ByName[out.Res[h][pt.Field].ReqName] {
+					if ti := w.Insts[id]; ti != nil && ti.Contributed && ti.ContribBy != "" {
+						continue // registered programmatically later on: it may not have existed yet
+					}
 					held[id] = true
 				}
 			}
